@@ -1,4 +1,4 @@
-CONSTANTS Threads = {1, 2}  InIds = {"a", "b"}  OutIds = {"y1", "y2"}  MaxLen = 2  ReqsPerThread = 2  CheckDupsFirst = FALSE
+CONSTANTS Threads = {1, 2}  InIds = {"a", "b"}  OutIds = {"y1", "y2"}  MaxLen = 2  ReqsPerThread = 2  MatchMode = "len_member"
 SPECIFICATION Spec
 VIEW View
 INVARIANT PlanFitsRequest
